@@ -408,7 +408,11 @@ impl Polynomial<Cmplx> {
             // x^8 - 1 + O(1e-9) at x = 0) only starts a huge/tiny oscillation: restart from a point inside the
             // disc instead ( the fallback step of modulus 1 + |x| leaves a disc of radius < 1 again, and
             // x^12 + 6e-4 x^7 + 8e-6 x + 8e-6 cycled between 0 and 1 until MAXIT )
-            if ( *x - dx ).abs() > bound { dx = Cmplx::polar( ( b / a[m] ).abs().powf( 1.0 / m as f64 ), iter as f64 ); }
+            // ( the same for a step more than four times that mean, however large the disc is: the nearest root is never
+            // further than it, and at the centre of a ring of roots NEXT TO other roots the huge step stays inside the
+            // disc - ( ( x + 8 )^6 - 0.5^6 )( x + 1 ) alternated between -8 and a far point and lost -8.5 )
+            let gm = ( b / a[m] ).abs().powf( 1.0 / m as f64 );
+            if ( *x - dx ).abs() > bound || dx.abs() > 4.0 * gm { dx = Cmplx::polar( gm, iter as f64 ); }
             if !( dx.real.is_finite() && dx.imag.is_finite() ) { return true; } // cannot improve x any further
             let x1 = *x - dx;
             if *x == x1 { return true; }
